@@ -16,7 +16,9 @@ RULE = ("Integer-grid contexts (exact distances, many ties and duplicates), metr
         "ON a realised query-row distance, strictly between two realised distances, or below the minimum; k in 1..n. "
         "Oracle: membership by exact integer arithmetic (euclidean: correctly-rounded sqrt of the exact integer), and "
         "the expectations of a fresh bandit with the same learning policy and no neighbourhood policy fit on exactly "
-        "those rows. KNearest: rows closer than the k-th distance are mandatory, rows at it optional; any valid "
+        "those rows, constructed with the per-row seed the neighbourhood policy derives from the bandit's generator so that "
+        "randomised learning policies (Softmax, Thompson, Popularity, Random, epsilon>0, LinTS) are compared by value too; "
+        "the oracle is evaluated after the last training call and after a drawn subset of the earlier ones. KNearest: rows closer than the k-th distance are mandatory, rows at it optional; any valid "
         "completion (<= 200 enumerated) is accepted. Empty neighbourhood: all NaN; predict returns an arm with "
         "positive configured probability; sub-check 'empty': arm frequencies over 600 empty rows within 6 sigma of "
         "the configured distribution. Non-trivial: a stored row exactly on the radius, or a tie at the k-th distance, "
